@@ -1,6 +1,7 @@
 (* C15_proofs.v — the signed-cookie guard: _lscmp, the split at '?', the reduction
    of forgery to a MAC collision.  Round trips are in C15_roundtrip.v. *)
 From Coq Require Import String Ascii.
+From Coq Require Import Permutation.
 From Verif Require Import lib.Base lib.Str lib.Utf8 lib.Base64 model.Cookie.
 Local Open Scope N_scope.
 
@@ -175,3 +176,36 @@ Proof.
 Qed.
 
 End Guard.
+
+(* ------------------------------------------------------------------ *)
+(* BaseResponse.copy: the copy and the original do not share cookies    *)
+(* ------------------------------------------------------------------ *)
+Lemma mjar_insert_perm e j : Permutation (mjar_insert e j) (e :: j).
+Proof.
+  induction j as [|e' r IH]; simpl; [apply Permutation_refl|].
+  destruct (str_ltb (fst e') (fst e)); [|apply Permutation_refl].
+  eapply Permutation_trans; [apply perm_skip; exact IH | apply perm_swap].
+Qed.
+
+Lemma mjar_copy_perm j : Permutation (mjar_copy j) j.
+Proof.
+  unfold mjar_copy. induction j as [|e r IH]; simpl; [constructor|].
+  eapply Permutation_trans; [apply mjar_insert_perm | now apply perm_skip].
+Qed.
+
+Lemma copy_independent (val : Type) (mac : list N -> list N -> list N)
+      (dumps : str -> @cval val -> list N) (st : rpair) (o : @rop val) :
+  let st' := fst (fst (rstep val mac dumps st o)) in
+  match o with
+  | RSet true _ _ _ | RDel true _ => fst st' = fst st            (* on the copy: the original keeps its cookies *)
+  | RSet false _ _ _ | RDel false _ => snd st' = snd st          (* on the original: the copy keeps its cookies *)
+  | RCopy => fst st' = fst st /\ exists c, snd st' = Some c /\ Permutation c (fst st)
+  end.
+Proof.
+  destruct st as [r c]. destruct o as [oc name v secret|oc name|]; simpl.
+  - destruct oc; [destruct c as [cj|]; [|reflexivity]|];
+      destruct (mjar_set val mac dumps _ name v secret false); reflexivity.
+  - destruct oc; [destruct c as [cj|]; [|reflexivity]|];
+      destruct (mjar_delete val mac dumps _ name); reflexivity.
+  - split; [reflexivity|]. exists (mjar_copy r). split; [reflexivity | apply mjar_copy_perm].
+Qed.
